@@ -744,6 +744,129 @@ func main() {
 		problem("AuthenticationMethod iota block not found")
 	}
 
+	// ---- Handler.ServeHTTP: what chooses the per-method mux, and what of the request is read on the way.
+	// FAIL CLOSED: the index of h.methodMux must be a plain variable (or r.Method itself); every write to that variable
+	// is listed with its source text, anything that is not a plain assignment is listed as `unknown:…`; every use of the
+	// request parameter is listed (`r.Method`, `r` handed on, or whatever else - r.Header, r.URL, r.FormValue …).
+	// Theorem gen_routes_on_wire_method demands exactly ["r.Method", "\"GET\""] and ["r.Method", "r"].
+	{
+		var sources, uses []string
+		addTo := func(l *[]string, v string) {
+			for _, x := range *l {
+				if x == v {
+					return
+				}
+			}
+			*l = append(*l, v)
+		}
+		fd := funcDecl(hF, "ServeHTTP", "*Handler")
+		if fd == nil || fd.Type.Params == nil || len(fd.Type.Params.List) != 2 || len(fd.Type.Params.List[1].Names) != 1 {
+			problem("Handler.ServeHTTP not found or of an unknown signature")
+			sources, uses = []string{"unknown:ServeHTTP"}, []string{"unknown:ServeHTTP"}
+		} else {
+			rq := fd.Type.Params.List[1].Names[0].Name
+			// the variables that index h.methodMux
+			idx := map[string]bool{}
+			nIndex := 0
+			ast.Inspect(fd.Body, func(n ast.Node) bool {
+				ie, ok := n.(*ast.IndexExpr)
+				if !ok || !strings.HasSuffix(src(ie.X), ".methodMux") {
+					return true
+				}
+				nIndex++
+				switch x := ie.Index.(type) {
+				case *ast.Ident:
+					idx[x.Name] = true
+				default:
+					if src(ie.Index) == rq+".Method" {
+						addTo(&sources, rq+".Method")
+					} else {
+						addTo(&sources, "unknown:index "+src(ie.Index))
+					}
+				}
+				return true
+			})
+			if nIndex != 1 {
+				addTo(&sources, fmt.Sprintf("unknown:%d uses of methodMux", nIndex))
+			}
+			// every mention of methodMux in the file besides NewHandler / addRawRoute / ServeHTTP is another way to a mux
+			for _, d := range hF.Decls {
+				if f2, ok := d.(*ast.FuncDecl); ok && f2.Body != nil && f2.Name.Name != "NewHandler" && f2.Name.Name != "addRawRoute" && f2.Name.Name != "ServeHTTP" {
+					// (delRawRoute deregisters a pattern, serveRoutes lists the patterns: they may look at a mux but not serve with it)
+					if body := src(f2.Body); strings.Contains(body, "methodMux") && strings.Contains(body, "ServeHTTP") {
+						addTo(&sources, "unknown:methodMux used to serve in "+f2.Name.Name)
+					}
+				}
+			}
+			ast.Inspect(fd.Body, func(n ast.Node) bool {
+				switch x := n.(type) {
+				case *ast.AssignStmt:
+					for i, l := range x.Lhs {
+						id, ok := l.(*ast.Ident)
+						if !ok || !idx[id.Name] {
+							continue
+						}
+						if len(x.Lhs) == len(x.Rhs) && (x.Tok == token.ASSIGN || x.Tok == token.DEFINE) {
+							addTo(&sources, src(x.Rhs[i]))
+						} else {
+							addTo(&sources, "unknown:"+src(x))
+						}
+					}
+				case *ast.ValueSpec:
+					for i, id := range x.Names {
+						if idx[id.Name] {
+							if i < len(x.Values) {
+								addTo(&sources, src(x.Values[i]))
+							} else {
+								addTo(&sources, "unknown:"+id.Name+" declared without a value")
+							}
+						}
+					}
+				case *ast.IncDecStmt:
+					if id, ok := x.X.(*ast.Ident); ok && idx[id.Name] {
+						addTo(&sources, "unknown:"+src(x))
+					}
+				case *ast.UnaryExpr:
+					if id, ok := x.X.(*ast.Ident); ok && x.Op == token.AND && idx[id.Name] {
+						addTo(&sources, "unknown:"+src(x))
+					}
+				case *ast.RangeStmt:
+					for _, e := range []ast.Expr{x.Key, x.Value} {
+						if id, ok := e.(*ast.Ident); ok && idx[id.Name] {
+							addTo(&sources, "unknown:range writes "+id.Name)
+						}
+					}
+				}
+				return true
+			})
+			ast.Inspect(fd.Body, func(n ast.Node) bool {
+				switch x := n.(type) {
+				case *ast.SelectorExpr:
+					if id, ok := x.X.(*ast.Ident); ok && id.Name == rq {
+						addTo(&uses, rq+"."+x.Sel.Name)
+						return false
+					}
+				case *ast.Ident:
+					if x.Name == rq {
+						addTo(&uses, rq)
+					}
+				}
+				return true
+			})
+		}
+		var a, b []string
+		for _, x := range sources {
+			a = append(a, leanStr(x))
+		}
+		for _, x := range uses {
+			b = append(b, leanStr(x))
+		}
+		w("/-- `Handler.ServeHTTP`: the source texts of everything assigned to the variable that indexes `h.methodMux`. -/")
+		w("def serveHTTPMethodSources : List String := [%s]", strings.Join(a, ", "))
+		w("/-- `Handler.ServeHTTP`: every way the request parameter is used (field reads, or handed on whole). -/")
+		w("def serveHTTPRequestUses : List String := [%s]", strings.Join(b, ", "))
+	}
+
 	// ---- the route table of NewHandler and the authentication wrapping of addRawRoute
 	emitRoutes(hF, hc, w)
 
